@@ -8,6 +8,8 @@ Case format (tree):  [hier, tables, C, [wpk, wpl, sel, flag]]
   wpk     0 plain entity, 1 with_polymorphic(C, "*"), 2 with_polymorphic(C, [classes wpl])
   sel     classes given to selectin_polymorphic (empty: option not used)
   flag    0 | 1 with_polymorphic(aliased=True) | 2 with_polymorphic(flat=True)   (no effect on the result)
+  optional 5th component [k, clear]: the classes k.. are mapped AFTER a first query of the (nearest mapped ancestor of
+          the) queried class; clear = 1: engine.clear_compiled_cache() after the late mapping (ignored by the model)
 Observation: [0, [[pk, class, attributes loaded by the query (before any attribute access), [[attr, value] ...]] ...]]
   | [1] InvalidRequestError | [2] AssertionError (unknown identity) | [3] with_polymorphic() refused the class list
   | [9, name] any other exception from the query | [8, name] an exception from an attribute access (never by the model)
@@ -28,7 +30,8 @@ RULE = (
     "subclass; plus random hierarchies (<= 8 classes, depth <= 3, width <= 3; all-single / all-joined / mixed) "
     "with 0..6 objects, NULL attribute values, shuffled table order, random class lists for with_polymorphic "
     "and selectin_polymorphic (also combined, also aliased=True / flat=True); plus rows whose discriminator is "
-    "NULL / unknown / names another class with the same tables. Compared: result order, type(obj), the set of "
+    "NULL / unknown / names another class with the same tables; plus hierarchies that grow after a first query (late "
+    "subclasses, compiled cache cleared). Compared: result order, type(obj), the set of "
     "attributes present in obj.__dict__ right after the query, and every attribute value after access (which "
     "triggers the deferred loads). non-trivial = the queried class has a subclass with a stored object and a "
     "strict-subclass attribute is read"
@@ -239,11 +242,33 @@ def gen_cases(rng, tier):
         C = rng.randrange(0, n - 1)
         ds = list(range(C + 1, n))
         cases.append({"in": [h, tables, C, [0, [], rng.sample(ds, rng.randint(1, len(ds))), 0]], "kind": "chain"})
+    # ---- hierarchies that grow after first use: map k classes, query, map the rest, (clear the compiled cache,) query
+    for _ in range(400 if tier == "thorough" else 90):
+        h = _gen_hier(rng, 7)
+        if len(h) < 3:
+            continue
+        if rng.random() < 0.6:
+            h = [[c[0], c[1], 1 if i == 0 else 0] for i, c in enumerate(h)]  # all single-table
+        k = rng.randint(2, len(h) - 1)
+        objs = _gen_objs(rng, h, rng.randint(1, 6))
+        tables = _tables_of(rng, h, objs)
+        C = rng.randrange(len(h))
+        cases.append({"in": [h, tables, C, _gen_opt(rng, h, C), [k, 1]], "kind": "grow"})
+    return cases
+
+
+def search_cases(rng, tier):
+    """the ordinary families, plus growing hierarchies without clearing the compiled cache (oracle only: the
+    model has no statement cache)"""
+    cases = gen_cases(rng, "quick")
+    for c in list(cases):
+        if c["kind"] == "grow" and rng.random() < 0.5:
+            cases.append({"in": c["in"][:4] + [[c["in"][4][0], 0]], "kind": "grow-nocache-clear", "model": False})
     return cases
 
 
 def nontrivial(c):
-    h, tables, C, opt = c["in"]
+    h, tables, C, opt = c["in"][:4]
     idents = {h[m][1]: m for m in _desc(h, C) if m != C}
     root = next((rows for o, rows in tables if o == 0), [])
     return any(isinstance(r[1], int) and r[1] in idents for r in root)
@@ -253,16 +278,13 @@ def nontrivial(c):
 _MAPPED = {}
 
 
-def _build(hier):
+def _define(hier, Base, classes, lo, hi):
+    """map the classes lo..hi-1 of the hierarchy (their parents are already in [classes])"""
     from sqlalchemy import Column, ForeignKey, Integer
-    from sqlalchemy.orm import configure_mappers, declarative_base
+    from sqlalchemy.orm import configure_mappers
 
-    key = tuple(tuple(c) for c in hier)
-    if key in _MAPPED:
-        return _MAPPED[key]
-    Base = declarative_base()
-    classes = []
-    for i, (p, ident, joined) in enumerate(hier):
+    for i in range(lo, hi):
+        p, ident, joined = hier[i]
         attrs = {}
         if p < 0:
             attrs.update(
@@ -287,10 +309,45 @@ def _build(hier):
         attrs["a%d" % i] = Column(Integer)
         classes.append(type("C%d" % i, (parent,), attrs))
     configure_mappers()
+
+
+def _build(hier):
+    from sqlalchemy.orm import declarative_base
+
+    key = tuple(tuple(c) for c in hier)
+    if key in _MAPPED:
+        return _MAPPED[key]
+    Base = declarative_base()
+    classes = []
+    _define(hier, Base, classes, 0, len(hier))
     if len(_MAPPED) > 400:
         _MAPPED.clear()
     _MAPPED[key] = (Base, classes)
     return Base, classes
+
+
+def _statement(classes, C, opt):
+    """the query under test; None when with_polymorphic() refuses the class list"""
+    from sqlalchemy import exc as sa_exc
+    from sqlalchemy import select
+    from sqlalchemy.orm import selectin_polymorphic, with_polymorphic
+
+    wpk, wpl, sel, flag = opt
+    cls = classes[C]
+    kw = {1: {"aliased": True}, 2: {"flat": True}}.get(flag, {})
+    try:
+        if wpk == 1:
+            ent = with_polymorphic(cls, "*", **kw)
+        elif wpk == 2:
+            ent = with_polymorphic(cls, [classes[k] for k in wpl], **kw)
+        else:
+            ent = cls
+    except sa_exc.InvalidRequestError:
+        return None
+    st = select(ent)
+    if sel:
+        st = st.options(selectin_polymorphic(ent, [classes[k] for k in sel]))
+    return st.order_by(ent.id)
 
 
 def impl(c):
@@ -298,14 +355,40 @@ def impl(c):
 
     from sqlalchemy import create_engine, insert, inspect, select
     from sqlalchemy import exc as sa_exc
-    from sqlalchemy.orm import Session, selectin_polymorphic, with_polymorphic
+    from sqlalchemy.orm import Session
 
     warnings.simplefilter("ignore")
-    hier, tables, C, opt = c["in"]
+    hier, tables, C, opt = c["in"][:4]
+    grow = c["in"][4] if len(c["in"]) > 4 else None
     wpk, wpl, sel, flag = opt
-    Base, classes = _build(hier)
     e = create_engine("sqlite://")
     try:
+        if grow:
+            # the hierarchy grows after it has been used: map the first k classes, run a query, map the rest
+            from sqlalchemy import text
+            from sqlalchemy.orm import declarative_base
+
+            k, clear = grow
+            Base, classes = declarative_base(), []
+            _define(hier, Base, classes, 0, k)
+            Base.metadata.create_all(e)
+            c1 = C
+            while c1 >= k:
+                c1 = hier[c1][0]
+            early = c1 == C and all(m < k for m in wpl + sel)
+            st1 = _statement(classes, c1, opt if early else [0, [], [], 0])
+            with Session(e) as s:
+                if st1 is not None:
+                    s.scalars(st1).all()
+            _define(hier, Base, classes, k, len(hier))
+            with e.begin() as conn:
+                for i in range(k, len(hier)):
+                    if not hier[i][2] and _owner(hier, i) < k:  # a late table is created with all its columns
+                        conn.execute(text("ALTER TABLE t%d ADD COLUMN a%d INTEGER" % (_owner(hier, i), i)))
+            if clear:
+                e.clear_compiled_cache()
+        else:
+            Base, classes = _build(hier)
         Base.metadata.create_all(e)
         with e.begin() as conn:
             for owner, rows in tables:
@@ -318,21 +401,9 @@ def impl(c):
                         kw["a%d" % a] = None if v == [] else v
                     conn.execute(insert(tbl).values(**kw))
         with Session(e) as s:
-            cls = classes[C]
-            kw = {1: {"aliased": True}, 2: {"flat": True}}.get(flag, {})
-            try:
-                if wpk == 1:
-                    ent = with_polymorphic(cls, "*", **kw)
-                elif wpk == 2:
-                    ent = with_polymorphic(cls, [classes[k] for k in wpl], **kw)
-                else:
-                    ent = cls
-            except sa_exc.InvalidRequestError:
+            st = _statement(classes, C, opt)
+            if st is None:
                 return [3]
-            st = select(ent)
-            if sel:
-                st = st.options(selectin_polymorphic(ent, [classes[k] for k in sel]))
-            st = st.order_by(ent.id)
             try:
                 objs = s.scalars(st).all()
             except AssertionError:
@@ -391,7 +462,7 @@ def _objects(h, tables):
 
 
 def oracle(c, obs):
-    h, tables, C, opt = c["in"]
+    h, tables, C, opt = c["in"][:4]
     objs = _objects(h, tables)
     if objs is None:
         return None
@@ -416,6 +487,13 @@ def oracle(c, obs):
 
 
 def match_finding(c, what):
+    if len(c["in"]) > 4:
+        h, tables, C, opt, (k, clear) = c["in"]
+        # the statement was compiled before the late classes existed and the compiled cache was not cleared
+        if not clear and what.startswith("query of class") and "returned primary keys" in what and any(
+            m >= k and not h[C][2] and h[C][0] >= 0 for m in _desc(h, C)
+        ):
+            return "C42-stale-in-list-in-compiled-cache"
     return None
 
 
